@@ -232,7 +232,7 @@ func (m *Muxer) WriteData(d *MuxerData) (int, error) {
 				if pkt.AdaptationField == nil {
 					pkt.AdaptationField = newStuffingAdaptationField(bytesAvailable)
 				} else {
-					pkt.AdaptationField.StuffingLength = bytesAvailable
+					pkt.AdaptationField.StuffingLength += bytesAvailable
 				}
 
 				n, err = writePacket(m.bitsWriter, &pkt, m.packetSize)
@@ -280,7 +280,7 @@ func (m *Muxer) WriteData(d *MuxerData) (int, error) {
 				if pkt.AdaptationField == nil {
 					pkt.AdaptationField = newStuffingAdaptationField(bytesAvailable)
 				} else {
-					pkt.AdaptationField.StuffingLength = bytesAvailable
+					pkt.AdaptationField.StuffingLength += bytesAvailable
 				}
 			}
 
